@@ -146,6 +146,10 @@ pub struct OrderBy {
 #[derive(Clone, Debug, PartialEq)]
 pub struct Query {
     pub paths: Vec<PathPat>,
+    /// `OPTIONAL MATCH <paths>` after the mandatory patterns (left-join semantics: a binding of
+    /// the mandatory part without any extension is kept once, the new variables being NULL).
+    /// Not combined with WHERE (the languages disagree on what it then filters).
+    pub optional: Vec<PathPat>,
     pub where_: Option<Pred>,
     pub items: Vec<Item>,
     pub distinct: bool,
@@ -187,7 +191,7 @@ pub fn agg(f: AggFn, arg: Item) -> Item {
 impl Query {
     /// `MATCH <paths> RETURN <items>` without further clauses.
     pub fn simple(paths: Vec<PathPat>, items: Vec<Item>) -> Query {
-        Query { paths, where_: None, items, distinct: false, order_by: None, skip: None, limit: None }
+        Query { paths, optional: vec![], where_: None, items, distinct: false, order_by: None, skip: None, limit: None }
     }
     pub fn has_agg(&self) -> bool {
         self.items.iter().any(|i| i.is_agg())
@@ -257,7 +261,7 @@ impl Query {
     }
     /// Names of the single-hop edge variables.
     pub fn edge_vars(&self) -> Vec<String> {
-        self.paths.iter().flat_map(|p| p.hops.iter()).filter(|h| h.varlen.is_none()).filter_map(|h| h.evar.clone()).collect()
+        self.paths.iter().chain(self.optional.iter()).flat_map(|p| p.hops.iter()).filter(|h| h.varlen.is_none()).filter_map(|h| h.evar.clone()).collect()
     }
 
     /// Clause-shape features for violation signatures (flat string map).
@@ -297,6 +301,7 @@ impl Query {
             }
             seen.extend(mine);
         }
+        f.insert("optional", if self.optional.is_empty() { "no" } else { "yes" }.into());
         f.insert("join", if shared { "shared-var" } else { "none" }.into());
         let evars = self.edge_vars();
         f.insert("edge_prop_read", if self.props_read().iter().any(|(v, _)| evars.contains(v)) { "yes" } else { "no" }.into());
@@ -314,8 +319,8 @@ impl Query {
                     (Operand::Prop(..), Operand::Prop(..)) => "cmp2".into(),
                     _ => "cmp".into(),
                 },
-                Pred::And(a, b) => format!("and({},{})", shape(a), shape(b)),
-                Pred::Or(a, b) => format!("or({},{})", shape(a), shape(b)),
+                Pred::And(a, b) => format!("and({}|{})", shape(a), shape(b)),
+                Pred::Or(a, b) => format!("or({}|{})", shape(a), shape(b)),
                 Pred::Not { inner, parens } => format!("{}({})", if *parens { "not-paren" } else { "not" }, shape(inner)),
                 Pred::IsNull(_) => "isnull".into(),
             }
@@ -331,6 +336,41 @@ impl Query {
                 Pred::IsNull(_) => {}
             }
         }
+        fn conn(p: &Pred, out: &mut std::collections::BTreeSet<&'static str>, bare_not: &mut bool) {
+            match p {
+                Pred::And(a, b) => {
+                    out.insert("and");
+                    conn(a, out, bare_not);
+                    conn(b, out, bare_not);
+                }
+                Pred::Or(a, b) => {
+                    out.insert("or");
+                    conn(a, out, bare_not);
+                    conn(b, out, bare_not);
+                }
+                Pred::Not { inner, parens } => {
+                    out.insert("not");
+                    if !*parens {
+                        *bare_not = true;
+                    }
+                    conn(inner, out, bare_not);
+                }
+                _ => {}
+            }
+        }
+        let mut cs = std::collections::BTreeSet::new();
+        let mut bare = false;
+        if let Some(p) = &self.where_ {
+            conn(p, &mut cs, &mut bare);
+        }
+        // coarse fields for ledger matchers
+        f.insert("connective", if cs.is_empty() { "none".into() } else { cs.into_iter().collect::<Vec<_>>().join("+") });
+        f.insert("bare_not", if bare { "yes" } else { "no" }.into());
+        f.insert("has_where", if self.where_.is_some() { "yes" } else { "no" }.into());
+        f.insert("has_agg", if self.has_agg() { "yes" } else { "no" }.into());
+        f.insert("has_order", if self.order_by.is_some() { "yes" } else { "no" }.into());
+        f.insert("has_window", if self.has_window() { "yes" } else { "no" }.into());
+        f.insert("hops", self.hop_count().to_string());
         match &self.where_ {
             None => {
                 f.insert("where", "none".into());
@@ -431,6 +471,16 @@ impl Query {
             }
         };
         // clauses
+        if !self.optional.is_empty() {
+            let mut q = self.clone();
+            q.optional.clear();
+            push(q);
+            // make the optional part mandatory
+            let mut q = self.clone();
+            let o = std::mem::take(&mut q.optional);
+            q.paths.extend(o);
+            push(q);
+        }
         if self.where_.is_some() {
             let mut q = self.clone();
             q.where_ = None;
@@ -585,8 +635,11 @@ impl Query {
         if self.items.is_empty() || self.paths.is_empty() {
             return false;
         }
+        if !self.optional.is_empty() && self.where_.is_some() {
+            return false;
+        }
         let mut bound: Vec<&str> = vec![];
-        for p in &self.paths {
+        for p in self.paths.iter().chain(self.optional.iter()) {
             bound.push(&p.start.var);
             for h in &p.hops {
                 bound.push(&h.to.var);
@@ -668,8 +721,8 @@ impl Query {
                 Pred::IsNull(o) => json!({"isnull": op(o)}),
             }
         }
-        json!({
-            "paths": self.paths.iter().map(|p| json!({
+        let pp = |p: &PathPat| {
+            json!({
                 "start": np(&p.start),
                 "hops": p.hops.iter().map(|h| json!({
                     "dir": match h.dir { Dir::Out => "out", Dir::In => "in", Dir::Both => "both" },
@@ -677,7 +730,11 @@ impl Query {
                     "varlen": h.varlen.map(|(a, b)| vec![a, b]),
                     "to": np(&h.to),
                 })).collect::<Vec<_>>(),
-            })).collect::<Vec<_>>(),
+            })
+        };
+        json!({
+            "paths": self.paths.iter().map(pp).collect::<Vec<_>>(),
+            "optional": self.optional.iter().map(pp).collect::<Vec<_>>(),
             "where": self.where_.as_ref().map(pr),
             "items": self.items.iter().map(it).collect::<Vec<_>>(),
             "distinct": self.distinct,
@@ -734,7 +791,10 @@ impl Query {
             Some(Pred::IsNull(op(j.get("isnull")?)?))
         }
         let mut paths = vec![];
-        for p in j.get("paths")?.as_array()? {
+        let mut optional = vec![];
+        let empty = vec![];
+        let np_ = j.get("paths")?.as_array()?.len();
+        for (pi, p) in j.get("paths")?.as_array()?.iter().chain(j.get("optional").and_then(|x| x.as_array()).unwrap_or(&empty).iter()).enumerate() {
             let mut hops = vec![];
             for h in p.get("hops")?.as_array()? {
                 hops.push(Hop {
@@ -749,7 +809,12 @@ impl Query {
                     to: np(h.get("to")?)?,
                 });
             }
-            paths.push(PathPat { start: np(p.get("start")?)?, hops });
+            let pat = PathPat { start: np(p.get("start")?)?, hops };
+            if pi < np_ {
+                paths.push(pat);
+            } else {
+                optional.push(pat);
+            }
         }
         let where_ = match j.get("where") {
             Some(J::Null) | None => None,
@@ -760,6 +825,6 @@ impl Query {
             Some(J::Null) | None => None,
             Some(o) => Some(OrderBy { key: it(o.get("key")?)?, desc: o.get("desc")?.as_bool()? }),
         };
-        Some(Query { paths, where_, items, distinct: j.get("distinct")?.as_bool()?, order_by, skip: j.get("skip").and_then(|x| x.as_u64()), limit: j.get("limit").and_then(|x| x.as_u64()) })
+        Some(Query { paths, optional, where_, items, distinct: j.get("distinct")?.as_bool()?, order_by, skip: j.get("skip").and_then(|x| x.as_u64()), limit: j.get("limit").and_then(|x| x.as_u64()) })
     }
 }
